@@ -375,10 +375,14 @@ write:
 		// and don't increment writtenSinceKex: if we trigger
 		// another kex while we are still busy with the last
 		// one, things will become very confusing.
-		for _, p := range t.pendingPackets {
-			t.writeError = t.pushPacket(p)
-			if t.writeError != nil {
-				break
+		// If the kex failed, nothing more may be written: the error
+		// stays recorded and the queued packets are dropped.
+		if t.writeError == nil {
+			for _, p := range t.pendingPackets {
+				t.writeError = t.pushPacket(p)
+				if t.writeError != nil {
+					break
+				}
 			}
 		}
 		t.pendingPackets = t.pendingPackets[:0]
